@@ -698,9 +698,7 @@ func runC01(c runCfg) error {
 		return err
 	}
 	defer rmRoot(root)
-	scratch.Coverage = true
 	m, err := scratch.New(root, pkgs)
-	scratch.Coverage = false
 	if err != nil {
 		return err
 	}
